@@ -28,21 +28,43 @@ META = {
 _BLANKS = (" ", "\t", "\n")
 
 
-def _skips_blanks(prog, name, depth=0):
-    """does the function (or a helper it calls) step over blanks: isspace() in a loop, or strspn() with a set that holds blank, tab and newline"""
+def _blank_test(n):
+    """is the expression a test for a blank character: isspace(c) (call or glibc's table macro), memchr/strchr in a set of blanks"""
+    for x in n.walk():
+        if x.k == "CallExpr":
+            cal = x.j.get("callee")
+            if cal in ("isspace", "isblank"):
+                return True
+            if cal in ("memchr", "strchr") and x.call_args():
+                txt = x.call_args()[0].string_value()
+                if txt is not None and all(b in txt for b in _BLANKS):
+                    return True
+        elif x.k == "DeclRefExpr" and x.j.get("name") == "_ISspace":
+            return True
+    return False
+
+
+def _skips_blanks(prog, name, depth=0, end=False):
+    """does the function (or a helper it calls) step over blanks at the start (end=False): a loop that tests for a blank, or
+    strspn() with a set that holds blank, tab and newline; at the end (end=True): a loop that tests for a blank and steps backwards"""
     try:
         h = prog.fn(name)
     except Exception:
         return False
+    for lp in h.walk():
+        if lp.k in ("WhileStmt", "ForStmt", "DoStmt"):
+            cond = lp.child("cond")
+            if cond is not None and _blank_test(cond):
+                back = any(x.k == "UnaryOperator" and x.j.get("op") == "--" for x in lp.walk())
+                if back == end:
+                    return True
     for c in h.calls():
         cal = c.j.get("callee")
-        if cal == "isspace" and any(a.k in ("WhileStmt", "ForStmt", "DoStmt") for a in c.ancestors()):
-            return True
-        if cal == "strspn" and len(c.call_args()) == 2:
+        if not end and cal == "strspn" and len(c.call_args()) == 2:
             txt = c.call_args()[1].string_value()
             if txt is not None and all(b in txt for b in _BLANKS):
                 return True
-        if cal and depth < 2 and cal != name and cal in getattr(prog, "functions", {}) and _skips_blanks(prog, cal, depth + 1):
+        if cal and depth < 2 and cal != name and cal in getattr(prog, "functions", {}) and _skips_blanks(prog, cal, depth + 1, end):
             return True
     return False
 
@@ -66,8 +88,10 @@ def _text_source(prog, g, d):
     from sa.mod import LIBC
     if name in LIBC:
         return ("raw", name)
-    if _skips_blanks(prog, name):
+    if _skips_blanks(prog, name) and _skips_blanks(prog, name, end=True):
         return ("skipper", name)
+    if _skips_blanks(prog, name):
+        return ("lead", name)
     return ("unknown", name)
 
 def p8_comment_lines(prog, ctx):
@@ -216,6 +240,27 @@ def run(prog, ctx):
             kinds = [_text_source(prog, g, d) for d in ds]
             if all(k[0] == "skipper" for k in kinds):
                 trimmed, via = True, kinds[0][1]
+            elif all(k[0] in ("skipper", "lead") for k in kinds):
+                # only the start is trimmed: the quoted branch hands out this very text, with whatever blanks follow the closing quote
+                # (unless something that trims the end is applied to it afterwards - not followed further)
+                region = set()
+                for (b9, i9, s9) in gcf.edges():
+                    l9 = gcf.edge_lit(b9, i9)
+                    if gcf.blocks[b9].cond is cond and l9 is not None and l9.kind == "eq" and len(gcf.blocks[b9].succs) == 2:
+                        other = gcf.blocks[b9].succs[1 - i9]
+                        if l9.pol:
+                            region |= gcf.reachable(s9) - (gcf.reachable(other) if other is not None else set())
+                later_trim = [c9 for c9 in g.calls() if c9.j.get("callee") in getattr(prog, "functions", {})
+                              and _skips_blanks(prog, c9.j["callee"], end=True) and gcf.block_of(c9) in region]
+                if later_trim:
+                    ctx.inconclusive("P1", "extended value: the quote test looks at the trimmed value", cond.where,
+                                     "the start is trimmed by %s, the end possibly by %s later on" % (sorted(set(k[1] for k in kinds)), later_trim[0].j["callee"]))
+                    continue
+                ctx.fail("P1", "extended value: the quote test looks at the trimmed value", cond.where,
+                         "`%s` comes from %s, which skips the blanks in front only: the one item of a quoted value keeps the blanks behind its closing quote "
+                         "(values are stored with the raw end of their last continuation line)" % (var.j["name"], sorted(set(k[1] for k in kinds))),
+                         key="quote-test-halftrimmed")
+                continue
             elif any(k[0] == "unknown" for k in kinds) and not any(k[0] == "raw" for k in kinds):
                 ctx.inconclusive("P1", "extended value: the quote test looks at the trimmed value", cond.where,
                                  "the text tested comes from %s, which is not seen to skip leading blanks" % sorted(set(k[1] for k in kinds if k[0] == "unknown")))
@@ -436,6 +481,19 @@ def run(prog, ctx):
         drops += [s2 for lhs, rhs, s2, kind in query.stores(rf) if render(lhs) == buf and rhs is not None and rhs.is_null_const() and s2.within(L.loop)]
         stray = []
         for x in drops:
+            # free(buf); buf = longer;  where `longer` was built from the old text (asprintf(&longer, "%s\n%s", buf, line)): the text grows, it is not dropped
+            if x.k == "CallExpr":
+                pos9 = cfg.index_of(x)
+                rebuilt = False
+                if pos9 is not None:
+                    for e9 in cfg.blocks[pos9[0]].elems[pos9[1] + 1:]:
+                        if e9.k == "BinaryOperator" and e9.j.get("op") == "=" and render(e9.children[0]) == buf and not e9.children[1].is_null_const():
+                            src9 = render(e9.children[1])
+                            rebuilt = any(any(render(a9) == "&" + src9 for a9 in c9.call_args()) and any(render(a9) == buf for a9 in c9.call_args())
+                                          and cfg.node_dominates(c9, x) for c9 in rf.calls(("asprintf", "vasprintf")))
+                            break
+                if rebuilt:
+                    continue
             if not any(cfg.node_dominates(c, x) and cfg.block_of(x) in cfg.reachable(cfg.block_of(c), avoid_blocks=[L.header]) for c in L.store_calls):
                 # tolerated: error paths that leave the function
                 if L.header in cfg.reachable(cfg.block_of(x)):
